@@ -315,6 +315,11 @@ func TestGenSym(t *testing.T) {
 			emit(symCfg{minI: ver, maxI: ver, minR: ver, maxR: ver, pwI: base, pwR: base, payload: r.bytes(sz)}, fmt.Sprintf("payload-v%d", ver))
 		}
 	}
+	// (corpus) the known finding C04/version-byte-unauthenticated, deterministically
+	emit(symCfg{minI: 0, maxI: 2, minR: 0, maxR: 2, pwI: base, pwR: base, expI: true, expR: true,
+		payload: []byte("auth-payload"), tamper: []string{"v2=1", "v3=2"}}, "version-bytes")
+	emit(symCfg{minI: 0, maxI: 2, minR: 0, maxR: 1, pwI: base, pwR: base, expI: true, expR: true,
+		payload: []byte("auth-payload"), tamper: []string{"v2=2", "v3=1"}}, "version-bytes")
 	// (4) version-byte substitutions, all combinations over the acts
 	for _, kk := range []bool{false, true} {
 		nacts := 3
